@@ -1,4 +1,5 @@
 (* Props/C06.v — property C06: never more scenarios in flight than the concurrency limit. *)
+From CV Require Proofs.ReviewP3.
 From CV Require Proofs.SchedP12.
 From CV Require Import Model.Base Model.Events Model.Sched Proofs.BaseP Proofs.SchedP Proofs.SchedP2.
 
@@ -54,3 +55,27 @@ Theorem C06_take_ready_exact :
     ((exists k, n = Some k /\ length a = k) \/ Forall (SchedP12.waiting now) b) /\
     Permutation.Permutation l (a ++ b).
 Proof. exact SchedP12.take_ready_post. Qed.
+
+
+(* ---------- "With a limit of 1 scenario attempts run strictly one after another, so the events of different attempts never
+   interleave" — on the EMITTED STREAM of every run, no hypothesis on the input (review L4) ---------- *)
+Theorem C06_limit_one_no_interleaving :
+  forall c ls s tr, exec c ls = Some (s, tr) -> cf_concurrency c = Some 1%nat -> ReviewP3.no_interleaving tr = true.
+Proof. exact ReviewP3.limit_one_no_interleaving. Qed.
+Print Assumptions C06_limit_one_no_interleaving.
+
+(* in plain words: between the Started of an attempt and its Finished every scenario event is that attempt's own *)
+Theorem C06_limit_one_attempts_never_interleave :
+  forall c ls s tr, exec c ls = Some (s, tr) -> cf_concurrency c = Some 1%nat ->
+    forall pre f r sid rt mid post, tr = pre ++ EvScen f r sid rt ScStarted :: mid ++ post ->
+      (forall f' r', ~ In (EvScen f' r' sid rt ScFinished) mid) ->
+      forall f' r' s' rt' x, In (EvScen f' r' s' rt' x) mid -> s' = sid /\ rt' = rt /\ is_middle x = true.
+Proof. exact ReviewP3.limit_one_attempts_never_interleave. Qed.
+Print Assumptions C06_limit_one_attempts_never_interleave.
+
+(* for EVERY limit K: the open attempts of the stream, followed by key (scenario, retries), never exceed K, every Finished
+   and every middle event belongs to an open attempt — no hypothesis on the input (duplicate ids included) *)
+Theorem C06_stream_attempt_brackets_within_the_limit :
+  forall c ls s tr, exec c ls = Some (s, tr) -> ReviewP3.att_walk (cf_concurrency c) tr = true.
+Proof. exact ReviewP3.stream_att_walk. Qed.
+Print Assumptions C06_stream_attempt_brackets_within_the_limit.
